@@ -437,6 +437,14 @@ impl Replay {
                 if !got && !alive {
                     self.stuck(format!("notification #{} neither applied nor failed on an idle server", k));
                 }
+                // (--dwell-ms) keep the workers where they are for a while: the notification has to survive
+                // however long the earlier requests take
+                let dwell = DWELL_MS.load(std::sync::atomic::Ordering::Relaxed);
+                let pending = { let s = self.rec.m.lock().unwrap(); outcomes(&s) < k };
+                if alive && pending && dwell > 0 {
+                    self.log(json!({"ev":"Dwell","ms":dwell}));
+                    std::thread::sleep(Duration::from_millis(dwell));
+                }
             }
             Some(Queued::Exit) | None => {}
         }
@@ -550,6 +558,8 @@ impl Replay {
     }
 }
 
+pub static DWELL_MS: std::sync::atomic::AtomicU64 = std::sync::atomic::AtomicU64::new(0);
+
 /// the k-th notification is the one the loop reported waiting for
 fn waiting_for(s: &Shared, k: usize) -> bool {
     count(s, "NotifBegin") == k && outcomes(s) == k - 1
@@ -605,6 +615,10 @@ pub fn cmd_replay(args: &[String]) -> i32 {
             "--shard" => {
                 let p: Vec<usize> = args[i + 1].split('/').map(|s| s.parse().unwrap()).collect();
                 shard = (p[0], p[1]);
+                i += 1;
+            }
+            "--dwell-ms" => {
+                DWELL_MS.store(args[i + 1].parse().unwrap(), std::sync::atomic::Ordering::Relaxed);
                 i += 1;
             }
             _ => {}
